@@ -11,6 +11,7 @@ import SdcModel.Proofs.ScalarsDurLex
 import SdcModel.Proofs.ScalarsEnum
 import SdcModel.ScalarsDt
 import SdcModel.Proofs.ScalarsDt
+import SdcModel.Proofs.ScalarsDtLex
 import SdcModel.Generated.ScalarsEnums
 /-!
 # C18 — scalar XML value conversions are exact over the wire value space
@@ -195,6 +196,14 @@ theorem lexical_accept_duration (oh om : Option Str) (os : Option (Str × Str))
   durationGroups_render oh om os hh hm hs hsome
 
 example : parseDurationUs [80, 49, 68] = .error .value := by decide   -- 'P1D'
+
+/-- date / time: anything outside the lexical space of xsd:dateTime / date / gYearMonth / gYear (`DateTimeLex`: optional
+    `-`, year of 4 digits or more without leading zero, `-MM` 01..12, `-DD` 01..31, `Thh:mm:ss(.f+)` or `T24:00:00(.0+)`,
+    `Z` or `±hh:mm` up to 14:00; ASCII digits; one trailing newline tolerated) is rejected with `ValueError` -/
+theorem lexical_reject_datetime (s : Str) (h : ¬ DateTimeLex (dropNewline s)) : parseDateTime s = .error .value :=
+  parseDateTime_reject s h
+
+example : parseDateTime [50, 48, 50, 48, 45, 49, 51] = .error .value := by decide   -- '2020-13'
 
 /-- enums: a string that is not a literal of the class is rejected; an accepted one is written back unchanged -/
 theorem lexical_reject_enum (lits : List Str) (s : Str) (h : s ∉ lits) : enumToPy lits s = .error .value :=
